@@ -25,6 +25,7 @@ pub fn gen(group: &str, rng: &mut Rng, n: usize, out: &mut Vec<String>) {
         "url" => textl::gen_url(rng, n, out),
         "req" => req::gen(rng, n, out),
         "ctl" => ctl::gen(rng, n, out),
+        "ctlfilter" => ctl::gen_ctlfilter(rng, n, out),
         "conn" => conn::gen(rng, n, out),
         "faults" => conn::gen_faults(rng, n, out),
         "msgid" => conn::gen_msgid(rng, n, out),
